@@ -239,6 +239,11 @@ def _surface_case(desc, ctx, rng):
     Er = build.edges_list(r)
     ctx.obs("result", "valid")
     ar = topo.analyse(len(Vr), Fr)
+    if not (ar["manifold"] and ar["oriented"]) and _quad_diagonal_is_an_edge(F0):
+        # a quad of a very small mesh (a 3 x 3 torus of quads) whose splitting diagonal already joins two vertices of the mesh: no
+        # triangulation of that quad without a new vertex gives a manifold, so the mesh is outside what the operation can be asked for
+        ctx.note("result_not_judged(quad_whose_diagonal_is_already_an_edge)")
+        return
     if not (ar["valid_indices"] and ar["manifold"] and ar["oriented"] and ar["unused_vertices"] == 0 and ar["repeated_faces"] == 0):
         ctx.violation("result", "surface_block", "invalid_mesh", "result is not a valid oriented manifold mesh (ops %s)" % site, analysis={k: ar[k] for k in ("valid_indices", "manifold", "oriented", "unused_vertices", "repeated_faces")})
         return
@@ -290,6 +295,12 @@ def _surface_case(desc, ctx, rng):
         ctx.sample({"input_faces": F0, "operations": [o[0] for o in ops], "result_counts": [len(Vr), len(Er), len(Fr)], "prequery": desc["prequery"]})
 
 
+def _quad_diagonal_is_an_edge(F):
+    """True when some quad [A, B, C, D] of the face list has a diagonal (either one) that is already an edge of the mesh."""
+    E = {(min(f[k], f[(k + 1) % len(f)]), max(f[k], f[(k + 1) % len(f)])) for f in F for k in range(len(f))}
+    return any(len(f) == 4 and ((min(f[1], f[3]), max(f[1], f[3])) in E or (min(f[0], f[2]), max(f[0], f[2])) in E) for f in F)
+
+
 def _input_object_surface(ctx, m, snap0, snapr, site):
     ctx.obs("input_state", "block")
     try:
@@ -310,6 +321,11 @@ def _input_object_surface(ctx, m, snap0, snapr, site):
     ctx.note("input_" + state)
     # its connectivity answers must describe its current containers
     F = now["F"]
+    an = topo.analyse(len(now["V"]), F)
+    if not (an["manifold"] and an["oriented"]):
+        # (only reachable through a quad whose diagonal was already an edge, see the result check; connectivity of a non-manifold is not judged)
+        ctx.note("input_connectivity_not_judged(containers_are_not_an_oriented_manifold)")
+        return
     ref = RefSurface(len(now["V"]), F)
     P = surfconn.probes(ref, random.Random(3))
     S = surfconn.script(P)
